@@ -85,10 +85,28 @@ def run_shard(shard, tier, seed, wd, res):
         if rng.random() < 0.3:
             s.op("pairing", Pa, Qa)
             s.op("pair_with_21", Qa, Pa)
+        if j < 2:
+            # caller-defined argument types (G1: Into<G1Affine>, G2: Into<G2Affine>): a conversion that evaluates
+            # pairings of its own, one that panics (caught by the caller), and the plain call again afterwards
+            s.op("pairing_re", Pa, Qa, V.n(1))
+            s.op("pairing_re", Pa, Qa, V.n(2))
+            s.op("pairing", Pa, Qa)
+            s.op("pairing_re", Pa, Qa, V.n(0))
     H.monitor_script(__import__("props.c03", fromlist=["x"]), s.text(), BUILDS, wd, res, shard)
 
 
 def judge(ctx, rec, res):
+    if rec.op.endswith("_re"):
+        # the same entry point with caller-defined argument types whose conversion re-enters the library (mode 1) or
+        # panics (mode 2: the caller's own panic, not judged; what follows it is)
+        if rec.args[-1][1] == 2:
+            return None if rec.status == "panic" else "the conversion's own panic to reach the caller"
+        saved = rec.op
+        rec.op = rec.op[:-3]
+        try:
+            return judge(ctx, rec, res)
+        finally:
+            rec.op = saved
     if rec.op not in ("pairing", "pairing_p", "pair_with_12", "pair_with_21"):
         return spec.judge(ctx, rec, res)
     i1, i2 = (1, 0) if rec.op == "pair_with_21" else (0, 1)
